@@ -46,7 +46,7 @@ type zvC08Op struct {
 }
 
 type zvC08Case struct {
-	Cfg  zvC08Cfg   `json:"config"`
+	Cfg  zvC08Cfg  `json:"config"`
 	Hist []zvC08Op `json:"history"`
 }
 
@@ -453,6 +453,20 @@ func zvC08Step(r *vh.Run, cfg zvC08Cfg, hist []zvC08Op) (string, []zvC08Op, bool
 		paths[i] = d.real()
 		idx[paths[i]] = i
 	}
+	// which of the harness's paths is this Loc-RIB path: by object identity, else (should a Loc-RIB ever copy
+	// what it stores) by attributes, which are pairwise different
+	which := func(lp *route.Path) int {
+		if i, mine := idx[lp]; mine {
+			return i
+		}
+		v := zvoViewOf(lp)
+		for i, p := range paths {
+			if zvoViewOf(p) == v {
+				return i
+			}
+		}
+		return -1
+	}
 	sa, opts := zvC08Session(cfg)
 	rib := locRIB.New("inet.0")
 	a := New(rib, sa, zvC08Chain(cfg))
@@ -474,7 +488,7 @@ func zvC08Step(r *vh.Run, cfg zvC08Cfg, hist []zvC08Op) (string, []zvC08Op, bool
 		if lr := rib.Get(zvC08Pfxs[p]); lr != nil {
 			for k, lp := range lr.Paths() {
 				if k < nSel {
-					m[idx[lp]] = true
+					m[which(lp)] = true
 				}
 			}
 		}
@@ -540,6 +554,9 @@ func zvC08Step(r *vh.Run, cfg zvC08Cfg, hist []zvC08Op) (string, []zvC08Op, bool
 	if len(hist) > 0 {
 		for p := range zvC08Pfxs {
 			for x := range selected(p) {
+				if x < 0 {
+					continue
+				}
 				if _, exported, why := zvC08Export(cfg, p, descs[x]); !selBefore[p][x] && !exported && why != "policy" {
 					newlySelectedBlocked[p] = true
 				}
@@ -567,9 +584,10 @@ func zvC08Step(r *vh.Run, cfg zvC08Cfg, hist []zvC08Op) (string, []zvC08Op, bool
 		var loc []int
 		if lr := rib.Get(zvC08Pfxs[p]); lr != nil {
 			for _, lp := range lr.Paths() {
-				i, mine := idx[lp]
-				if !mine {
-					r.Fatalf("Loc-RIB holds a path object the harness did not insert")
+				i := which(lp)
+				if i < 0 {
+					r.Count("pruned_locrib_diverged", 1)
+					return "locrib-diverged:" + fmt.Sprint(hist), nil, false
 				}
 				loc = append(loc, i)
 			}
